@@ -34,8 +34,21 @@ type c12op struct {
 }
 
 type c12trial struct {
-	Kind  int       `json:"kind"` // 0 plain ctx, 1 root scope, 2 root+child (shared ctx), 3 isolated ctx
+	// 0 plain ctx, 1 root scope, 2 root+child (shared ctx), 3 isolated ctx (parent left alone until the end),
+	// 4 root scope + child SCOPE with an isolated context (Via 0 = the child, 1 = the root),
+	// 5 plain ctx + isolated ctx of it (Via 0 = the isolated one, 1 = its parent): the parent ends DURING the run
+	Kind  int       `json:"kind"`
 	Progs [][]c12op `json:"progs"`
+}
+
+// what one context showed when everything was quiet
+type c12ctxres struct {
+	Errors   []int
+	Done     bool
+	DoneRecv bool // a receive from Done() succeeds
+	ErrNil   bool
+	ErrCount int
+	Released int // the goroutine that sat in <-Done() from before the start: 1 released, 0 still waiting
 }
 
 type c12result struct {
@@ -49,10 +62,18 @@ type c12result struct {
 	ClosePan bool
 	ParentOK bool // isolated: after the parent stops, the isolated context is done
 	Hang     bool
+	Released int        // primary context: its Done() waiter was released (1) or not (0)
+	Par      *c12ctxres `json:",omitempty"` // kinds 4, 5: the parent's context
+	ChildNil int        // kinds 2, 4: child.Close()==nil (1), !=nil (0), n/a (-1)
+	InRun    []string   `json:",omitempty"` // what a caller saw right after its own completed call
+	FollowOK bool       // isolated kinds: after the parent's end the isolated Done() channel is closed
+	Waiters  []string   `json:",omitempty"` // a goroutine sitting in <-Done(): released iff the context ended
 }
 
-func genC12Trial(rng *RNG, maxG int) c12trial {
-	t := c12trial{Kind: rng.Intn(4)}
+func genC12Trial(rng *RNG, maxG int) c12trial { return genC12TrialK(rng, maxG, 6) }
+
+func genC12TrialK(rng *RNG, maxG int, kinds int) c12trial {
+	t := c12trial{Kind: rng.Intn(kinds)}
 	g := 2 + rng.Intn(maxG-1)
 	if rng.Chance(50) {
 		g = 2 + rng.Intn(3)
@@ -65,6 +86,9 @@ func genC12Trial(rng *RNG, maxG int) c12trial {
 			op := c12op{}
 			if t.Kind == 2 {
 				op.Via = rng.Intn(2)
+			}
+			if t.Kind >= 4 && rng.Chance(40) {
+				op.Via = 1
 			}
 			switch k := rng.Intn(100); {
 			case k < 35:
@@ -96,6 +120,73 @@ func genC12Trial(rng *RNG, maxG int) c12trial {
 	return t
 }
 
+// ctxOf: which context an operation issued through handle via lands on
+func (t *c12trial) ctxOf(via int) int {
+	if t.Kind >= 4 {
+		return via
+	}
+	return 0
+}
+
+// c12Extras: have = want + extra as multisets, with every extra drawn from pool (each pool entry once)
+func c12Extras(have, want, pool []int) (extra []int, ok bool) {
+	cnt := map[int]int{}
+	for _, x := range have {
+		cnt[x]++
+	}
+	for _, x := range want {
+		cnt[x]--
+		if cnt[x] < 0 {
+			return nil, false
+		}
+	}
+	avail := map[int]int{}
+	for _, x := range pool {
+		avail[x]++
+	}
+	for x, n := range cnt {
+		if n > avail[x] {
+			return nil, false
+		}
+		for ; n > 0; n-- {
+			extra = append(extra, x)
+		}
+	}
+	return extra, true
+}
+
+func containsAll(have []error, want []int) bool {
+	cnt := map[int]int{}
+	for _, e := range have {
+		cnt[errID(e)]++
+	}
+	for _, x := range want {
+		cnt[x]--
+		if cnt[x] < 0 {
+			return false
+		}
+	}
+	return true
+}
+
+func readCtx(h app.ContextScope) c12ctxres {
+	var r c12ctxres
+	for _, e := range h.Errors() {
+		r.Errors = append(r.Errors, errID(e))
+	}
+	sort.Ints(r.Errors)
+	r.Done = h.IsDone()
+	select {
+	case <-h.Done():
+		r.DoneRecv = true
+	default:
+	}
+	e := h.Err() // ONE reading: a watcher may hand its Canceled down between two
+	r.ErrNil = e == nil
+	r.ErrCount = c12ErrCount(e)
+	return r
+}
+
 func runC12Trial(t *c12trial, record bool) c12result {
 	var handles []app.ContextScope // what the operations are issued on
 	var root, child app.Scope
@@ -113,9 +204,36 @@ func runC12Trial(t *c12trial, record bool) c12result {
 	case 3:
 		parent = contextscope.New()
 		handles = []app.ContextScope{contextscope.NewIsolated(parent)}
+	case 4:
+		root = scope.New(scope.Params{})
+		child = scope.NewChild(root, scope.ChildParams{ContextScope: contextscope.NewIsolated(root)})
+		handles = []app.ContextScope{child, root}
+		parent = root.BaseContextScope()
+	case 5:
+		parent = contextscope.New()
+		handles = []app.ContextScope{contextscope.NewIsolated(parent), parent}
+	}
+	nctx := 1
+	if t.Kind >= 4 {
+		nctx = 2
 	}
 	var panics int32
 	var stamp int64
+	var inrunMu sync.Mutex
+	var inrun []string
+	note := func(f string, a ...interface{}) {
+		inrunMu.Lock()
+		if len(inrun) < 4 {
+			inrun = append(inrun, fmt.Sprintf(f, a...))
+		}
+		inrunMu.Unlock()
+	}
+	// one goroutine per context sits in <-Done() from before the start
+	var released [2]int32
+	for c := 0; c < nctx; c++ {
+		d := handles[c].Done()
+		go func(c int) { <-d; atomic.StoreInt32(&released[c], 1) }(c)
+	}
 	start := make(chan struct{})
 	var wg sync.WaitGroup
 	for gi := range t.Progs {
@@ -123,6 +241,8 @@ func runC12Trial(t *c12trial, record bool) c12result {
 		go func(prog []c12op) {
 			defer wg.Done()
 			<-start
+			var mine [2][]int // what this goroutine's completed calls appended, per context
+			var sig [2]bool   // ... and whether one of them signalled the end
 			for i := range prog {
 				op := &prog[i]
 				func() {
@@ -132,22 +252,63 @@ func runC12Trial(t *c12trial, record bool) c12result {
 						}
 					}()
 					h := handles[op.Via]
+					c := t.ctxOf(op.Via)
 					switch op.K {
 					case "append":
 						h.AppendError(toErrs(op.Es)...)
+						for _, e := range op.Es {
+							if e >= 0 {
+								mine[c] = append(mine[c], e)
+								sig[c] = true
+							}
+						}
 					case "kill":
 						h.Kill()
+						mine[c] = append(mine[c], 0)
+						sig[c] = true
 					case "stop":
 						h.Stop()
+						sig[c] = true
 					case "isdone":
-						h.IsDone()
+						if !h.IsDone() && sig[c] {
+							note("IsDone() is false after this caller's own AppendError/Kill/Stop had returned")
+						}
 					case "err":
-						_ = h.Err()
+						if h.Err() == nil && len(mine[c]) != 0 {
+							note("Err() is nil after this caller's own AppendError/Kill had returned")
+						}
 					case "errors":
-						_ = len(h.Errors())
+						if l := h.Errors(); !containsAll(l, mine[c]) {
+							note("Errors() = %d entries lacks errors this caller had appended before (%v)", len(l), mine[c])
+						}
+					}
+					if record {
+						op.stamp = atomic.AddInt64(&stamp, 1)
+					}
+					// what the caller sees right after its own completed call
+					switch op.K {
+					case "append", "kill", "stop":
+						if sig[c] {
+							if !h.IsDone() {
+								note("%s returned, IsDone() is still false", op.K)
+							}
+							select {
+							case <-h.Done():
+							default:
+								note("%s returned, the Done() channel is still open", op.K)
+							}
+						}
+						if len(mine[c]) != 0 {
+							if l := h.Errors(); !containsAll(l, mine[c]) {
+								note("%s returned, Errors() (%d entries) lacks what this caller appended (%v)", op.K, len(l), mine[c])
+							}
+							if e := h.Err(); e == nil || c12ErrCount(e) < len(mine[c]) {
+								note("%s returned, Err() stands for %d errors, this caller alone appended %d", op.K, c12ErrCount(e), len(mine[c]))
+							}
+						}
 					}
 				}()
-				if record {
+				if record && op.stamp == 0 {
 					op.stamp = atomic.AddInt64(&stamp, 1)
 				}
 			}
@@ -156,7 +317,7 @@ func runC12Trial(t *c12trial, record bool) c12result {
 	close(start)
 	fin := make(chan struct{})
 	go func() { wg.Wait(); close(fin) }()
-	res := c12result{WaitNil: -1, CloseNil: -1, ParentOK: true}
+	res := c12result{WaitNil: -1, CloseNil: -1, ChildNil: -1, ParentOK: true, FollowOK: true}
 	select {
 	case <-fin:
 	case <-time.After(10 * time.Second):
@@ -165,21 +326,41 @@ func runC12Trial(t *c12trial, record bool) c12result {
 	}
 	h := handles[0]
 	res.Panics = int(atomic.LoadInt32(&panics))
-	for _, e := range h.Errors() {
-		res.Errors = append(res.Errors, errID(e))
-	}
-	sort.Ints(res.Errors)
-	res.Done = h.IsDone()
-	if res.Done {
+	res.InRun = inrun
+	// isolated kinds whose parent was signalled during the run: the watcher acts on its own
+	follows := func() {
+		deadline := time.Now().Add(5 * time.Second)
+		for !h.IsDone() {
+			if time.Now().After(deadline) {
+				res.ParentOK = false
+				return
+			}
+			runtime.Gosched()
+		}
 		select {
 		case <-h.Done():
-		default:
-			res.Done = false // IsDone true but the receive does not succeed
-			res.Panics += 1000
+		case <-time.After(2 * time.Second):
+			res.FollowOK = false // IsDone() says done, the channel a waiter would sit on is still open
 		}
 	}
-	res.ErrNil = h.Err() == nil
-	res.ErrCount = c12ErrCount(h.Err())
+	if t.Kind >= 4 && parent.IsDone() {
+		follows()
+	}
+	pr := readCtx(h)
+	res.Errors, res.Done, res.ErrNil, res.ErrCount = pr.Errors, pr.Done, pr.ErrNil, pr.ErrCount
+	if res.Done && !pr.DoneRecv {
+		res.Done = false // IsDone true but the receive does not succeed
+		res.Panics += 1000
+	}
+	if t.Kind >= 4 {
+		q := readCtx(parent)
+		res.Par = &q
+	}
+	if parent != nil && !parent.IsDone() {
+		// the parent ends now, quietly: the isolated context follows
+		parent.Stop()
+		follows()
+	}
 	if root != nil {
 		func() {
 			defer func() {
@@ -196,7 +377,11 @@ func runC12Trial(t *c12trial, record bool) c12result {
 					}
 				}()
 				if child != nil {
-					child.Close()
+					if child.Close() == nil {
+						res.ChildNil = 1
+					} else {
+						res.ChildNil = 0
+					}
 				}
 				werr := root.Wait()
 				if werr == nil {
@@ -218,18 +403,64 @@ func runC12Trial(t *c12trial, record bool) c12result {
 			}
 		}()
 	}
-	if parent != nil {
-		parent.Stop()
-		deadline := time.Now().Add(5 * time.Second)
-		for !h.IsDone() {
-			if time.Now().After(deadline) {
-				res.ParentOK = false
-				break
+	// the Done() waiters: released exactly when the context is done
+	for c := 0; c < nctx; c++ {
+		hc := handles[c]
+		if hc.IsDone() {
+			deadline := time.Now().Add(2 * time.Second)
+			for atomic.LoadInt32(&released[c]) == 0 && time.Now().Before(deadline) {
+				runtime.Gosched()
 			}
-			runtime.Gosched()
+		}
+		rel := int(atomic.LoadInt32(&released[c]))
+		if (rel == 1) != hc.IsDone() {
+			res.Waiters = append(res.Waiters, fmt.Sprintf("context %d: IsDone()=%v, the goroutine waiting on the Done() channel it obtained before the run was released: %v", c, hc.IsDone(), rel == 1))
+		}
+		if c == 0 {
+			res.Released = rel
+		} else if res.Par != nil {
+			res.Par.Released = rel
+		}
+		if !hc.IsDone() {
+			// nothing was signalled: let the waiter (and a watcher) go
+			func() {
+				defer func() { recover() }()
+				if sc, ok := hc.(app.Scope); ok {
+					sc.BaseContextScope().Stop()
+				} else {
+					hc.Stop()
+				}
+			}()
 		}
 	}
 	return res
+}
+
+// expectedOn: what the operations issued on context c must leave there
+func (t *c12trial) expectedOn(c int) (errs []int, signalled bool) {
+	for _, prog := range t.Progs {
+		for _, op := range prog {
+			if t.ctxOf(op.Via) != c {
+				continue
+			}
+			switch op.K {
+			case "append":
+				for _, e := range op.Es {
+					if e >= 0 {
+						errs = append(errs, e)
+						signalled = true
+					}
+				}
+			case "kill":
+				errs = append(errs, 0)
+				signalled = true
+			case "stop":
+				signalled = true
+			}
+		}
+	}
+	sort.Ints(errs)
+	return
 }
 
 func (t *c12trial) expected() (errs []int, signalled bool, mutators int) {
@@ -240,17 +471,10 @@ func (t *c12trial) expected() (errs []int, signalled bool, mutators int) {
 			case "append":
 				for _, e := range op.Es {
 					if e >= 0 {
-						errs = append(errs, e)
-						signalled = true
 						mut = true
 					}
 				}
-			case "kill":
-				errs = append(errs, 0)
-				signalled = true
-				mut = true
-			case "stop":
-				signalled = true
+			case "kill", "stop":
 				mut = true
 			}
 		}
@@ -258,7 +482,7 @@ func (t *c12trial) expected() (errs []int, signalled bool, mutators int) {
 			mutators++
 		}
 	}
-	sort.Ints(errs)
+	errs, signalled = t.expectedOn(0)
 	return
 }
 
@@ -394,7 +618,9 @@ func runC12(o *Out, rng *RNG, tier string, replay string) {
 	o.CheckFn = "check"
 	o.ShardSize = 150
 	o.Rule = "stress trials: 2..64 goroutines x 1..3 operations each (AppendError with nil and non-nil errors, Kill, Stop, IsDone, Err, Errors) " +
-		"on {plain context, root scope, root+child sharing a context, isolated context}, yield hook at the Stop gap; " +
+		"on {plain context, root scope, root+child sharing a context, isolated context, root scope + child scope with an isolated context, " +
+		"plain context + its isolated context (operations on both)}, yield hook at the Stop gap; every caller checks IsDone/Done()/Errors()/Err() " +
+		"right after its own completed call; one waiter per Done() channel; termexec.RunCommand/RunLoop probe on ending scopes; " +
 		"non-trivial = at least two goroutines signal (append/kill/stop); distinct by the operation lists. " +
 		"L1: small concurrent runs replayed in completion order (CLin), the exhaustive child-of-done orders and random sequential " +
 		"histories on scope trees (CSeq) are evaluated on the model inside Coq."
@@ -440,26 +666,72 @@ func runC12(o *Out, rng *RNG, tier string, replay string) {
 		if res.Panics != 0 || res.ClosePan {
 			fail("no_panic", fmt.Sprintf("%d recovered panics (close panicked: %v)", res.Panics, res.ClosePan))
 		}
+		var pexp []int // what was appended to the parent (kinds 4, 5)
+		psig := false
+		if t.Kind >= 4 {
+			pexp, psig = t.expectedOn(1)
+			signalled = signalled || psig
+		}
+		// the watcher of an isolated context hands down at most ONE Canceled, only when the parent holds
+		// an error, and at a moment of its own choosing (possibly after the isolated context ended by
+		// itself): every reading below tolerates that one error being there or not yet
+		// (which error is handed down is left open: anything the parent holds, or Canceled, is accepted)
+		late := 0
+		if len(pexp) != 0 {
+			late = 1 + len(pexp)
+			if extra, ok := c12Extras(res.Errors, exp, append([]int{0}, pexp...)); ok && len(extra) != 0 {
+				exp = append(append([]int{}, exp...), extra...)
+				sort.Ints(exp)
+				late -= len(extra)
+			}
+		}
 		if !sameInts(res.Errors, exp) {
 			fail("errors_retained", fmt.Sprintf("Errors() as a multiset = %v, appended non-nil + one Canceled per Kill = %v", res.Errors, exp))
 		}
 		if res.Done != signalled {
 			fail("done_once", fmt.Sprintf("done = %v although signalled = %v", res.Done, signalled))
 		}
-		if res.ErrNil != (len(exp) == 0) {
+		if res.ErrNil != (res.ErrCount == 0) || (res.ErrNil != (len(exp) == 0) && late == 0) || (res.ErrNil && len(exp) != 0) {
 			fail("err_iff_nonempty", fmt.Sprintf("Err()==nil is %v with %d errors", res.ErrNil, len(exp)))
 		}
-		if res.ErrCount != len(exp) {
+		if res.ErrCount < len(exp) || res.ErrCount > len(exp)+late {
 			fail("accessors", fmt.Sprintf("after all calls returned, Err() reports %d error(s) while %d were appended (Errors() has %d): the cumulative accessor lost errors", res.ErrCount, len(exp), len(res.Errors)))
 		}
-		if res.WaitNil >= 0 && (res.WaitNil == 1) != (len(exp) == 0) {
-			fail("wait_iff_nonempty", fmt.Sprintf("Wait()==nil is %v with %d errors", res.WaitNil == 1, len(exp)))
+		rootExp := exp
+		if t.Kind == 4 {
+			rootExp = pexp
 		}
-		if res.CloseNil >= 0 && (res.CloseNil == 1) != (len(exp) == 0) {
-			fail("close_iff_nonempty", fmt.Sprintf("Close()==nil is %v with %d errors", res.CloseNil == 1, len(exp)))
+		if res.WaitNil >= 0 && (res.WaitNil == 1) != (len(rootExp) == 0) {
+			fail("wait_iff_nonempty", fmt.Sprintf("Wait()==nil is %v with %d errors", res.WaitNil == 1, len(rootExp)))
+		}
+		if res.CloseNil >= 0 && (res.CloseNil == 1) != (len(rootExp) == 0) {
+			fail("close_iff_nonempty", fmt.Sprintf("Close()==nil is %v with %d errors", res.CloseNil == 1, len(rootExp)))
+		}
+		if res.ChildNil >= 0 && (res.ChildNil == 1) != (len(exp) == 0) && (late == 0 || len(exp) != 0) {
+			fail("close_iff_nonempty", fmt.Sprintf("child.Close()==nil is %v, the child's context holds %d errors", res.ChildNil == 1, len(exp)))
 		}
 		if !res.ParentOK {
-			fail("isolated_follows_parent", "isolated context not done after its parent was stopped")
+			fail("isolated_follows_parent", "isolated context not done after its parent ended")
+		}
+		if !res.FollowOK {
+			fail("done_once", "isolated context: IsDone() is true after the parent's end but its Done() channel is never closed (a goroutine waiting on it stays blocked)")
+		}
+		if q := res.Par; q != nil {
+			if !sameInts(q.Errors, pexp) {
+				fail("errors_retained", fmt.Sprintf("parent of the isolated context: Errors() = %v, appended to it = %v", q.Errors, pexp))
+			}
+			if q.Done != psig || q.DoneRecv != q.Done {
+				fail("done_once", fmt.Sprintf("parent of the isolated context: IsDone = %v, receive from Done() succeeds = %v, signalled = %v", q.Done, q.DoneRecv, psig))
+			}
+			if q.ErrNil != (len(pexp) == 0) || q.ErrCount != len(pexp) {
+				fail("accessors", fmt.Sprintf("parent of the isolated context: Err() stands for %d errors, %d were appended", q.ErrCount, len(pexp)))
+			}
+		}
+		for _, wmsg := range res.Waiters {
+			fail("done_once", wmsg)
+		}
+		for _, m := range res.InRun {
+			fail("seen_by_caller", m)
 		}
 	}
 
@@ -469,7 +741,7 @@ func runC12(o *Out, rng *RNG, tier string, replay string) {
 		nLin = 6000
 	}
 	for i := 0; i < nLin; i++ {
-		t := genC12Trial(rng, 6)
+		t := genC12TrialK(rng, 6, 4)
 		if t.Kind == 3 {
 			// keep the parent out of the final comparison: replay stops before the parent is stopped
 		}
@@ -593,6 +865,13 @@ func runC12(o *Out, rng *RNG, tier string, replay string) {
 		nRace = 100000
 	}
 	c12ChildRace(o, rng, nRace)
+
+	// ---- (c3) the anchor termexec/run.go: commands dispatched on a scope that has ended / ends meanwhile
+	nTerm := 300
+	if thorough {
+		nTerm = 6000
+	}
+	c12TermexecProbe(o, rng, nTerm)
 
 	// ---- (d) random sequential histories on scope trees without listeners
 	nSeq := 500
